@@ -153,6 +153,17 @@ def src(node) -> str:
     return ast.unparse(node)
 
 
+def same_expr(node, expected: str) -> bool:
+    """structural equality of an expression node with an expected source string
+    (insensitive to redundant parentheses and formatting)"""
+    try:
+        a = ast.dump(ast.parse(ast.unparse(node), mode="eval"))
+        b = ast.dump(ast.parse(expected, mode="eval"))
+    except SyntaxError:
+        return False
+    return a == b
+
+
 def parent(node):
     return getattr(node, "_parent", None)
 
